@@ -29,7 +29,7 @@ type Result struct {
 	Retries  int    // calls repeated after a transient transport error
 	// ContractBroken: a Read returned a count outside 0..len(p)
 	ContractBroken bool
-	Reader   *wsutil.Reader
+	Reader         *wsutil.Reader
 	// HandlerShort: a control handler callback got fewer bytes than announced and saw a
 	// clean EOF (C16).
 	HandlerShort []string
@@ -277,6 +277,92 @@ func readerLoop(buf, lazy, contReads int) Driver {
 			}
 			res.Err = errors.New("driver: loop does not terminate")
 			return
+		},
+	}
+}
+
+// ReaderReceiveLoop is the usual receive loop around a Reader: a control frame met at the top
+// level is handed to a handler that takes exactly the announced payload (nothing at all for an
+// empty one, so the Reader is not told that the frame is over), data frames are read out. When
+// NextFrame refuses a frame while no message is open, the loop - like a caller that logs and
+// reads on - still asks Read for bytes a few times: whatever comes out is recorded as an
+// "after-refusal" event, which no model stream contains.
+func ReaderReceiveLoop() Driver {
+	return Driver{
+		Name:   "Reader/receive-loop-reading-on-after-a-refusal",
+		Expect: identity,
+		Run: func(src io.Reader, side streams.Side, cfg Cfg, res *Result) {
+			st := State(side)
+			if cfg.Extended {
+				st |= ws.StateExtended
+			}
+			rd := &wsutil.Reader{Source: src, State: st, MaxFrameSize: cfg.MaxFrameSize, CheckUTF8: cfg.CheckUTF8, Extensions: cfg.Extensions, SkipHeaderCheck: cfg.SkipHeaderCheck}
+			res.Reader = rd
+			rd.OnIntermediate = func(h ws.Header, r io.Reader) error {
+				p := make([]byte, h.Length)
+				if _, err := io.ReadFull(r, p); err != nil {
+					return err
+				}
+				res.Events = append(res.Events, Event{Kind: "ctl", Op: byte(h.OpCode), Payload: p})
+				return nil
+			}
+			for it := 0; it < maxIter; it++ {
+				h, err := rd.NextFrame()
+				if _, transient := err.(env.TempErr); transient {
+					res.Retries++
+					continue
+				}
+				if err != nil {
+					res.Err = err
+					if !rd.State.Fragmented() {
+						buf := make([]byte, 64)
+						for k := 0; k < 3; k++ {
+							if n, _ := rd.Read(buf); n > 0 {
+								res.Events = append(res.Events, Event{Kind: "after-refusal", Payload: append([]byte{}, buf[:n]...)})
+							}
+						}
+					}
+					return
+				}
+				if h.OpCode.IsControl() {
+					p := make([]byte, h.Length)
+					if h.Length > 0 {
+						if _, err := io.ReadFull(rd, p); err != nil {
+							res.Err = err
+							return
+						}
+					}
+					res.Events = append(res.Events, Event{Kind: "ctl", Op: byte(h.OpCode), Payload: p})
+					res.Calls++
+					continue
+				}
+				var p []byte
+				buf := make([]byte, 512)
+				for jt := 0; ; jt++ {
+					if jt > maxIter {
+						res.Err = errors.New("driver: Read does not terminate")
+						return
+					}
+					n, err := rd.Read(buf)
+					p = append(p, buf[:n]...)
+					res.Partial = p
+					if _, transient := err.(env.TempErr); transient {
+						res.Retries++
+						continue
+					}
+					if err == io.EOF {
+						break
+					}
+					if err != nil {
+						res.Err = err
+						return
+					}
+				}
+				res.Events = append(res.Events, Event{Kind: "msg", Op: byte(h.OpCode), Payload: p})
+				res.Partial = nil
+				res.Calls++
+			}
+			res.Err = errors.New("driver: loop does not terminate")
 		},
 	}
 }
@@ -627,7 +713,7 @@ func All() []Driver {
 	return []Driver{
 		ReaderLoop(1), ReaderLoop(2), ReaderLoop(7), ReaderLoop(512),
 		WithSkipHeaderCheck(ReaderLoop(7)), WithSkipHeaderCheck(ReaderDiscard(1)),
-		ReaderCopy(), ReaderAlternatingBuffers(), ReaderLazyHandler(0), ReaderLazyHandler(1), ReaderContinuationHandler(1), ReaderContinuationHandler(64),
+		ReaderCopy(), ReaderAlternatingBuffers(), ReaderReceiveLoop(), ReaderLazyHandler(0), ReaderLazyHandler(1), ReaderContinuationHandler(1), ReaderContinuationHandler(64),
 		ReaderDiscard(0), ReaderDiscard(1), ReaderDiscardUTF8(1), ReaderDiscardUTF8(2),
 		NextReaderLoop(), ReadMessageLoop(), ReadSideMessageLoop(),
 		ReadDataLoop("Generic"), ReadDataLoop("Data"), ReadDataLoop("Text"), ReadDataLoop("Binary"),
